@@ -51,6 +51,8 @@ pub struct CipherEvent {
     pub data: Vec<u8>,
     pub out_cap: usize,
     pub ok: bool,
+    /// Rekey only: the key that was installed before (the key the REKEY encryption ran under)
+    pub prev_key: Option<[u8; 32]>,
 }
 
 #[derive(Default, Debug)]
@@ -157,6 +159,7 @@ impl Cipher for RecordingCipher {
             data: vec![],
             out_cap: 0,
             ok: true,
+            prev_key: None,
         });
         self.inner.set(key);
     }
@@ -170,6 +173,7 @@ impl Cipher for RecordingCipher {
             data: plaintext.to_vec(),
             out_cap: out.len(),
             ok: true,
+            prev_key: None,
         });
         self.inner.encrypt(nonce, authtext, plaintext, out)
     }
@@ -184,6 +188,7 @@ impl Cipher for RecordingCipher {
             data: ciphertext.to_vec(),
             out_cap: out.len(),
             ok: r.is_ok(),
+            prev_key: None,
         });
         r
     }
@@ -202,6 +207,7 @@ impl Cipher for RecordingCipher {
             data: vec![0u8; 32],
             out_cap: 48,
             ok: true,
+            prev_key: self.key,
         });
         self.inner.rekey();
         self.key = newkey;
